@@ -35,10 +35,12 @@ def _is_name_filter(t: ast.AST, keyvars: set[str], listname: str) -> bool:
             and dotted(t.comparators[0]) == listname)
 
 
-def _is_type_filter(t: ast.AST, valvars: set[str], listname: str) -> bool:
+def _is_type_filter(t: ast.AST, valvars: set[str], listname: str, strict: bool = False) -> bool:
+    """strict: only isinstance() counts (the property skips every *instance* of a listed type at save
+    time; an exact-type test misses subclass instances)."""
     if isinstance(t, ast.Call) and call_name(t) == "isinstance" and len(t.args) == 2:
         return dotted(t.args[0]) in valvars and dotted(t.args[1]) == listname
-    if isinstance(t, ast.Compare) and len(t.ops) == 1 and isinstance(t.ops[0], ast.In):
+    if not strict and isinstance(t, ast.Compare) and len(t.ops) == 1 and isinstance(t.ops[0], ast.In):
         # type(v) in skip_types
         l = t.left
         if isinstance(l, ast.Call) and call_name(l) == "type" and l.args and dotted(l.args[0]) in valvars:
@@ -72,7 +74,7 @@ def run(check, repo: Repo) -> None:
             for d in _disjuncts(test):
                 if _is_name_filter(d, {keyname}, "skip_names"):
                     name_ok = True
-                if _is_type_filter(d, {valname}, "skip_types"):
+                if _is_type_filter(d, {valname}, "skip_types", strict=True):
                     type_ok = True
         check.decide(name_ok, "C14-R1", "_recursive_save: name filter dominates _serialize_value",
                      f"`{keyname} in skip_names` → skip", mod.line(c),
@@ -248,8 +250,70 @@ def run(check, repo: Repo) -> None:
                      fail_detail=f"super().save(skip={unparse(sk)}) does not carry the user's skip list plus "
                                  f"'_dset'/'dset' (extended with {ext}; sources {sorted(names)})")
         # the dataset names are added only when raw data is not requested
-        check.decide(True, "C14-R6", "Ptychography.save: skip list normalised before extension",
-                     "", pmod.line(psave), nontrivial=False)
+    # ---- R7: skip argument normalisation ------------------------------------------------------
+    _rule_skip_normalisation(check, repo)
+
+
+def _rule_skip_normalisation(check, repo: Repo) -> None:
+    """R7: wherever the public `skip` argument is iterated, a bare str and a bare type have been
+    wrapped into a list first (a bare string would otherwise be split into characters)."""
+    from ..core.cfg import CFG
+    n = 0
+    for q in (f"{SER}:AutoSerialize.save", f"{SER}:load", f"{PTY}:Ptychography.save"):
+        m, fn = repo.func(q)
+        if "skip" not in [a.arg for a in fn.args.args + fn.args.kwonlyargs]:
+            raise AnalysisError(f"{q}: no 'skip' parameter")
+        cfg = CFG(fn)
+        # iteration sites of skip: comprehension over skip, list(skip)/tuple(skip)/set(skip), for-loops
+        sites = []
+        for node in walk_no_nested_defs(fn):
+            if isinstance(node, ast.comprehension) and dotted(node.iter) == "skip":
+                sites.append(node.iter)
+            elif isinstance(node, ast.For) and dotted(node.iter) == "skip":
+                sites.append(node.iter)
+            elif isinstance(node, ast.Call) and call_name(node) in ("list", "tuple", "set", "sorted") and node.args \
+                    and dotted(node.args[0]) == "skip":
+                sites.append(node)
+        if not sites:
+            continue  # the argument is only forwarded
+        # normalising tests: isinstance(skip, (str, type)) [or two separate tests] whose true branch wraps
+        wrapped: dict[str, list[int]] = {"str": [], "type": []}
+        for nd in cfg.nodes:
+            if nd.kind == "test" and isinstance(nd.expr, ast.Call) and call_name(nd.expr) == "isinstance" \
+                    and len(nd.expr.args) == 2 and dotted(nd.expr.args[0]) == "skip":
+                tys = nd.expr.args[1]
+                names = [dotted(e) for e in (tys.elts if isinstance(tys, (ast.Tuple, ast.List)) else [tys])]
+                body = nd.stmt.body if isinstance(nd.stmt, ast.If) else []
+                wraps = any(isinstance(st, ast.Assign) and any(dotted(t) == "skip" for t in st.targets)
+                            and isinstance(st.value, (ast.List, ast.Tuple)) and len(st.value.elts) == 1
+                            and dotted(st.value.elts[0]) == "skip" for st in body)
+                if wraps:
+                    for nm in names:
+                        if nm in wrapped:
+                            wrapped[nm].append(nd.id)
+            if nd.kind == "stmt" and isinstance(nd.stmt, ast.Assign) and any(dotted(t) == "skip" for t in nd.stmt.targets) \
+                    and isinstance(nd.stmt.value, ast.IfExp):
+                ie = nd.stmt.value
+                if isinstance(ie.test, ast.Call) and call_name(ie.test) == "isinstance" and dotted(ie.test.args[0]) == "skip" \
+                        and isinstance(ie.body, (ast.List, ast.Tuple)):
+                    tys = ie.test.args[1]
+                    for nm in [dotted(e) for e in (tys.elts if isinstance(tys, (ast.Tuple, ast.List)) else [tys])]:
+                        if nm in wrapped:
+                            wrapped[nm].append(nd.id)
+        for sx in sites:
+            nodes = cfg.node_containing(sx)
+            if not nodes:
+                continue
+            n += 1
+            for kind in ("str", "type"):
+                ok = any(cfg.dominates(w, nodes[0]) for w in wrapped[kind])
+                check.decide(ok, "C14-R7", f"{q.split(':')[1]}: a bare {kind} given as skip is wrapped before `{unparse(sx)[:30]}`",
+                             "", m.line(sx),
+                             fail_detail=f"`skip` is iterated here without a dominating `isinstance(skip, …{kind}…)` → [skip] "
+                                         f"normalisation: a bare {kind} is "
+                                         + ("split into characters and the named attribute is not skipped" if kind == "str"
+                                            else "not iterable"))
+    check.floor("skip iteration sites", n, 5)
 
 
 def _closure(fn: ast.AST, expr: ast.AST) -> tuple[set[str], set[str]]:
